@@ -826,6 +826,14 @@ def own_strict(ctx: Ctx) -> RuleResult:
                   "the results map is no longer write-once: a node executed twice goes unnoticed", None)
     elif not ok:
         raise Undecided("StrictDict.__setitem__: guard not recognised")
+    # force_set bypasses the guard (it is how call arguments override defaults)
+    fs = c.methods.get("force_set")
+    r.require(fs is not None, "StrictDict.force_set not found")
+    okf = any(isinstance(n, ast.Call) and norm_src(n.func) in ("super().__setitem__", "dict.__setitem__") for n in iter_own_nodes(fs.node))
+    r.ob(okf, {"force_set bypasses the write-once guard": okf})
+    if not okf:
+        r.violate("StrictDict.force_set: goes through the guarded __setitem__", fs.loc(),
+                  "overriding a default with a call argument (or a cached value) raises KeyError", None)
     # no other overriding writer
     for name in ("update", "setdefault", "__ior__"):
         r.ob(name not in c.methods, {f"StrictDict.{name} not overridden": name not in c.methods})
